@@ -273,7 +273,9 @@ var c11BadMail = []string{"SIZE=abc", "SIZE=-1", "SIZE=", "SIZE", "SIZE=1x", "SI
 	"AUTH=+3C+3E", "AUTH=a@b@c", "AUTH=a+01b@c", "AUTH=\"@c", "FOO=BAR", "FOO", "X=1=2", "SIZE=1=2", "SMTPUTF8=1", "SMTPUTF8=", "REQUIRETLS=yes", "=x", "=", "-A=1", "A_B=1",
 	"NOTIFY=NEVER", "ORCPT=rfc822;a@b", "RRVS=2014-04-03T23:01:00Z", "BODY=8BITMIME=", "ENVID=a\x01b", "AUTH=a\x01b@c", "ENVID=\xc3\xa9", "AUTH=\xc3\xa9@x",
 	"\xc5\xbfIZE=1", "\xc5\xbfize=1", "\xc5\xbfMTPUTF8", "REQUIRETL\xc5\xbf", "ENV\xc4\xb1D=x", "S\xc4\xb1ZE=5", "RET=HDR\xc5\xbf", "BODY=8B\xc4\xb1TMIME", "BODY=B\xc4\xb1NARYM\xc4\xb1ME",
-	"\xe2\x84\xaa=1", "SI\xe2\x84\xaaZE=1", "S\xc3\x8fZE=1", "\xc3\xa9=1", "SIZE\xc2\xa0=1", "SIZE=1\xc2\xa0SMTPUTF8", "SIZE=1\tSMTPUTF8", "SIZE=1\x0bBODY=7BIT", "SIZE=1\xe2\x80\xa8BODY=7BIT"}
+	"\xe2\x84\xaa=1", "SI\xe2\x84\xaaZE=1", "S\xc3\x8fZE=1", "\xc3\xa9=1", "SIZE\xc2\xa0=1", "SIZE=1\xc2\xa0SMTPUTF8", "SIZE=1\tSMTPUTF8", "SIZE=1\x0bBODY=7BIT", "SIZE=1\xe2\x80\xa8BODY=7BIT",
+	// a value on a parameter that has none, an empty value (must be refused)
+	"REQUIRETLS=", "REQUIRETLS=1", "smtputf8=1", "SmtpUtf8=", "SMTPUTF8=SMTPUTF8", "SMTPUTF8=0", "RequireTLS=no", "X="}
 
 var c11BadRcpt = []string{"NOTIFY=", "NOTIFY", "NOTIFY=SUCCESS,SUCCESS", "NOTIFY=NEVER,SUCCESS", "NOTIFY=SUCCESS,NEVER", "NOTIFY=NEVER,NEVER", "NOTIFY=success,SUCCESS",
 	"NOTIFY=SUCCESS,", "NOTIFY=,", "NOTIFY=ALWAYS", "NOTIFY=SUCCESS;FAILURE", "NOTIFY=DELAY,FAILURE,SUCCESS,DELAY", "ORCPT=", "ORCPT", "ORCPT=rfc822", "ORCPT=rfc822;", "ORCPT=;a@b",
@@ -291,7 +293,8 @@ var c11BadPaths = []string{"", "<", ">", "<>", "<>x", "<@", "<@>", "<@b>", "<a@>
 	"<@x:a@b>", "<@x,@y:a@b>", "<@x:>", "<\"\"@b>", "<\"a@b>", "<\"a\"b@c>", "<\"a\\\x01\"@c>", "<\"a\x01\"@c>", "<.a@b>", "<a.@b>", "<a..b@c>", "<a@b.>", "<a@.b>", "<a@b..c>", "<a@-b>", "<a@b->",
 	"<a@b_c>", "<a@[1.2.3.4>", "<a@[]>", "<a@[x>y]>", "<a@b@c>", "<a@b@>", "<a\x01b@c>", "<a\x7fb@c>", "<\xc3\xa9@x>", "<a@\xc3\xa9>", "<a(b)@c>", "<a,b@c>", "<a;b@c>", "<a:b@c>", "<a[b@c>",
 	"<a\\b@c>", "<a<b@c>", "<a>b@c>", "<<a@b>>", "<a@b>>", "\t<a@b>", "<a\tb@c>", "<a@b\tc>", "<a@b>\tSIZE=1", "<a@b>SIZE=1", "<a@b>  SIZE=1", "<a@b> SIZE=1 ", "<a@b> SIZE=1  BODY=7BIT",
-	"<a@b> SIZE=1 SIZE=2", "<a@b> SIZE=1 size=2", "<a@b> SIZE=x SIZE=2", "<a@b> FOO SIZE=1 SIZE=2", "<a@b> \xc5\xbfIZE=1 SIZE=x", "<a@b> SIZE=x \xc5\xbfIZE=1", "<a@[IPv6:::1]>", "<a@[1.2.3.4]x>", "<a@x[1]>"}
+	"<a@b> SIZE=1 SIZE=2", "<a@b> SIZE=1 size=2", "<a@b> SIZE=x SIZE=2", "<a@b> FOO SIZE=1 SIZE=2", "<a@b> \xc5\xbfIZE=1 SIZE=x", "<a@b> SIZE=x \xc5\xbfIZE=1", "<a@b> SIZE=1 SMTPUTF8=1", "<a@b> SMTPUTF8= SIZE=1", "<a@b> REQUIRETLS=yes SMTPUTF8 BODY=7BIT", "<a@b> SIZE=1 BODY=", "<a@b> SMTPUTF8 SMTPUTF8=", "<a@b> SMTPUTF8= SMTPUTF8",
+	"<a@b> NOTIFY=NEVER ORCPT=", "<a@b> RRVS= NOTIFY=NEVER", "<a@b> SIZE=1 ENV\xc4\xb1D=x", "<a@b> NOTIFY=NEVER RRV\xc5\xbf=2014-04-03T23:01:00Z", "<a@[IPv6:::1]>", "<a@[1.2.3.4]x>", "<a@x[1]>"}
 
 // GenC11 emits the c11 cases.
 func GenC11(rng *rand.Rand, thorough bool, emit func(*Sx)) {
